@@ -35,6 +35,8 @@ def run(ctx, repo):
     ctx.rule('R4', 'input-form parity: no discarded result of a pure str method; text marks get the same conversions in sibling methods')
     ctx.rule('R5', 'unit conversions of load_data are value-correct for every literal')
     ctx.rule('R6', '(cross-reference) dead definitions')
+    ctx.rule('R7', 'the Tyrving race / jump / piecewise formulas (hand-timing adjustment included) and the QuadKids formula have the reference '
+                   'symbolic normal form (spec/junior_formulas.json): constants, branches, clamps and operands')
     # ---- R1
     probs, n_sh, db, high = tables.sportshall_problems(repo)
     seen = set()
@@ -189,3 +191,48 @@ def run(ctx, repo):
             if nm.startswith('__') or nm in ('RAWDATA',):
                 continue
             ctx.info('%s: module-level %s is defined and never used (cross-reference)' % (rel, nm))
+
+    # ---- R7 formula shape: the symbolic normal form of each linear / piecewise-linear formula equals the reference form
+    import json as _json
+    import os as _os
+    from .. import symx
+    from ..core import VERIF as _V
+    with open(_os.path.join(_V, 'spec', 'junior_formulas.json')) as f_:
+        ref = _json.load(f_)['formulas']
+    n_f = 0
+    for key, want in sorted(ref.items()):
+        rel, q = key.split('::')
+        fn_ = repo.module(rel).func(q)
+        eff = []
+        got = symx.py_returns(fn_, eff)
+        texts = [x[1] for x in got]
+        if None in texts:
+            raise AnalysisError('%s: a return is outside the symbolic fragment (%s)' % (q, [x[2] for x in got if x[1] is None][0]))
+        n_f += len(texts)
+        eff = sorted(list(x) for x in eff)
+        if texts != want['returns']:
+            ctx.finding('R7', '%s::%s::formula' % (rel, q), rel, fn_.lineno,
+                        '%s no longer computes the reference formula: it returns %s; the reference is %s' % (
+                            q, [t for t in texts if t not in want['returns']] or texts, [t for t in want['returns'] if t not in texts] or want['returns']),
+                        {'returns': texts})
+        elif eff != want['effects']:
+            ctx.finding('R7', '%s::%s::conditional adjustments' % (rel, q), rel, fn_.lineno,
+                        '%s adjusts the mark differently from the reference: now %s; reference %s' % (
+                            q, [e for e in eff if e not in want['effects']], [e for e in want['effects'] if e not in eff]))
+        else:
+            ctx.ok('R7', '%s: %d return form(s), %d conditional adjustment(s) equal the reference normal form' % (q, len(texts), len(eff)))
+    ctx.floor('reference formulas compared', n_f, 4)
+    # the kinds that share the piecewise formula still do
+    tc = repo.module('athlib/tyrving_score.py').cls('TyrvingCalculator')
+    alias = {st.targets[0].id: st.value.id for st in tc.body if isinstance(st, ast.Assign) and isinstance(st.targets[0], ast.Name)
+             and isinstance(st.value, ast.Name)}
+    if alias.get('throw_points') == 'stav_points' and alias.get('pv_points') == 'stav_points':
+        ctx.ok('R7', 'throw and pole-vault kinds use the piecewise (stav) formula')
+    else:
+        defined = {f.name for f in tc.body if isinstance(f, ast.FunctionDef)}
+        if not {'throw_points', 'pv_points'} <= defined | set(alias):
+            ctx.finding('R7', 'athlib/tyrving_score.py::TyrvingCalculator::kind dispatch', 'athlib/tyrving_score.py', tc.lineno,
+                        'the throw / pv kinds no longer have a points method (%s)' % alias)
+        else:
+            ctx.info('throw / pv kinds have their own methods now: %s' % alias)
+
